@@ -1,4 +1,4 @@
-import OdxVerif.Proofs.CompExtMid
+import OdxVerif.Proofs.Compose
 /-! Compositional components, extension W11 (5a): small tools for the DYNAMIC-ENDMARKER-FIELD — the bit cursor behind
     `emplace_atomic_value` (the scheme of `Proofs/DynLeafEop.lean` with the invariant "bit cursor = 0"), and a pair whose
     cursor is put back (`Pair.peek`: MCD-2 D 7.3.6.10.5, the end marker "is not consumed").  Core Lean only. -/
